@@ -18,8 +18,9 @@ struct HookEv {
 	const void* self; uint32_t self_hits; const void* ctx_a; const void* ctx_b; uint64_t ctx_tag;
 	SutTrans request, pending, current, previous;
 	uint8_t has_pending, has_current, has_previous;
-	uint8_t active[32]; uint8_t active_tmpl_ok;
+	uint8_t active[32]; uint8_t active_tmpl_ok; uint8_t active_invalid = 0, machine_active_invalid = 0;
 	int machine_active;                 // instance.activeStateId() read during the hook
+	int machine_is_active = -1;         // manual machines: instance.isActive() read during the hook
 	PlanSnap plan; uint8_t plan_m_same;
 	uint8_t last_kind, last_result;
 	std::vector<SutTask> walk;
